@@ -31,7 +31,9 @@ def scenarios(seed, count, sizes=(2, 3, 4)):
         tmin = rng.choice([1, 50])
         tmax = tmin + rng.randint(300, 2500)
         out.append({"n": n, "w": w, "g": g, "init": init, "tau": tau, "gam": gam, "tape": tape, "tmin": tmin, "tmax": tmax,
-                    "weighted": 1 if weighted else 0})
+                    "weighted": 1 if weighted else 0,
+                    # the real call is made with all times shifted by -shift (negative start times)
+                    "shift": rng.choice([0, 0, 3, 60, 4000])})
     return out
 
 
@@ -67,7 +69,8 @@ def replay(scn, ref, EoN):
         asked.append(rate)
         return float(tape[min(k, len(tape) - 1)])
     I0 = [u for u in nodes if scn["init"][u - 1] == "I"]
-    kw = dict(initial_infecteds=list(I0), tmin=float(scn["tmin"]), tmax=float(scn["tmax"]), return_full_data=True)
+    sh = float(scn.get("shift", 0))
+    kw = dict(initial_infecteds=list(I0), tmin=float(scn["tmin"]) - sh, tmax=float(scn["tmax"]) - sh, return_full_data=True)
     if scn["weighted"]:
         kw.update(transmission_weight="w", recovery_weight="g")
 
@@ -93,7 +96,7 @@ def replay(scn, ref, EoN):
     ch.sort(key=lambda c: c[0])
     for (t, s, u) in ch:
         got.append([t, "I", u, src.get((t, u), "?")] if s == "I" else [t, "R", u, 0])
-    want = [[float(e[0]), e[1], e[2], e[3]] for e in log]
+    want = [[float(e[0]) - sh, e[1], e[2], e[3]] for e in log]
     tied = len({e[0] for e in want}) < len(want) or len({e[0] for e in got}) < len(got)
     if got != want and tied:
         # simultaneous events (integer draw values): the queue's counter order is not part of the
